@@ -105,7 +105,7 @@ func Gen() *rapid.Generator[Src] {
 				parts[i] = genName(t, "seg")
 			}
 			if rapid.Bool().Draw(t, "hostprefix") {
-				parts[0] = rapid.SampledFrom([]string{"github.com", "gitlab.com", "bitbucket.org", "git.example.org"}).Draw(t, "host")
+				parts[0] = rapid.SampledFrom([]string{"github.com", "gitlab.com", "bitbucket.org", "git.example.org", "GitHub.com", "GITHUB.COM", "Github.com", "GitLab.com", "github.com.", "www.github.com"}).Draw(t, "host")
 			}
 			ref, _ := maybeRef(t)
 			s := strings.Join(parts, "/") + ref
